@@ -136,6 +136,12 @@ def _select(spec, ctx):
         res = real_ks(X, cdf, *a, **k)
         rec['ks'].append((getattr(cdf, '__self__', None), float(res[0])))
         return res
+    if spec['data']['seed'] % 2:
+        # the same object was used before, on data favouring another family: selection must start afresh
+        other = uni.make_data({'kind': 'uniform' if spec['data']['kind'] != 'uniform' else 'heavy', 'n': 200,
+                               'seed': spec['data']['seed'] + 1})
+        ctx.call(model.fit, other)
+        where['refit'] = True
     ub.select_univariate, sel.kstest = select_probe, ks_probe
     np.random.seed(spec['data']['seed'] % (2 ** 31))
     try:
@@ -208,13 +214,16 @@ def _table(spec, ctx):
     from copulas.multivariate import GaussianMultivariate
     rng = rng_for(spec['seed'], 'table')
     d, n, form = spec['d'], spec['n'], spec['form']
-    cols = ['c%d' % i for i in range(d)]
+    label_kind = int(rng.integers(4))
+    cols = [['c%d' % i for i in range(d)], list(range(d)), [2000 + 3 * i for i in range(d)],
+            [('grp', i) for i in range(d)]][label_kind]
+    as_array = label_kind == 1 and rng.random() < 0.5       # ndarray input: columns become 0..d-1
     z = rng.normal(size=(n, d)) @ rng.normal(size=(d, d))
     kinds = rng.integers(0, 4, d)
     X = np.column_stack([[z[:, i], np.exp(z[:, i] / 3), z[:, i] ** 2 + rng.random(n), np.tanh(z[:, i])][kinds[i]]
                          for i in range(d)])
     df = pd.DataFrame(X, columns=cols)
-    where = {'form': form, 'd': d, 'n': n}
+    where = {'form': form, 'd': d, 'n': n, 'labels': ['str', 'int', 'int-year', 'tuple'][label_kind], 'ndarray': bool(as_array)}
     names = sorted(TAGS)
     expect = {}            # column -> expected class name (None: the selecting wrapper)
     opts = {}
@@ -265,7 +274,7 @@ def _table(spec, ctx):
             else:
                 expect[c] = None
     model = GaussianMultivariate(distribution=dist) if dist is not None else GaussianMultivariate()
-    ok, exc = ctx.call(model.fit, df.copy())
+    ok, exc = ctx.call(model.fit, df.to_numpy().copy() if as_array else df.copy())
     if not ok:
         ctx.violation('table.fit', 'C05:table-fit-' + exc_mech(exc), dict(exc_detail(exc), **where))
         return
